@@ -60,6 +60,8 @@ def rule_a(ctx):
                 measured = "byte length"
             elif m == "count" and "Chars" in (cd or ""):
                 measured = "char count"
+            elif m in ("chars", "char_indices", "bytes", "as_bytes") and ends(cd, "str::" + m, "core::str::<impl str>::" + m, "String::" + m):
+                measured = "per-character iteration (one unit per char/byte, not per column)"
             elif m == "width" and "UnicodeWidthStr" in (cd or ""):
                 measured = "width"
             elif ends(cd, "Argument::<'_>::new_display") and False:
